@@ -4,15 +4,16 @@ def obligations(tier):
     ns = [4, 5] if tier == "quick" else [5, 6, 7]
     return [
         Obl("remote_blast", "blast.c",
-            progs=[Prog("qmail-remote.c", nomain=True)],
+            progs=[Prog("qmail-remote.c", nomain=True, cut=["out"])],
             lib=["ideal_substdio.c"],
             sysrename=["_exit"],
             grid=[{"N": n} for n in ns],
-            unwind=lambda p: {"blast": p["N"] + 2, "substdio_put": p["N"] + 3},
+            unwind=lambda p: {"blast": p["N"] + 2, "substdio_put": p["N"] + 3, "out": 121},
             unwind_default=lambda p: 3 * p["N"] + 10,
             timeout=900 if tier == "quick" else 3000,
             functions=["qmail-remote.c:blast", "qmail-remote.c:out", "qmail-remote.c:zero",
                        "qmail-remote.c:zerodie", "qmail-remote.c:perm_partialline", "qmail-remote.c:temp_read"],
+            cuts=["out -> records the first bytes of the fixed report text (the text is not the subject; keeps the put loop bound at N+3)"],
             stubs=["substdio_get/put/flush: ideal byte streams (lib/ideal_substdio.c), contract proved on the real substdio in C20 layer-0 lemmas",
                    "_exit: records status, runs abort-path assertions, ends the path"],
             assumes=["message length <= N bytes, every byte value 0..255, EOF anywhere, at most one read error at any position"],
